@@ -18,7 +18,7 @@ import (
 func main() {
 	reg := map[string]harness.Harness{
 		"C01": harness.External{Property: "C01", Ver: "c01-v1", M: plat.C01Meta(), Quick: 960, Thor: 30000, Bin: "plat.test", TestName: "TestJob", Classify: plat.ClassifyExitC01},
-		"C02": harness.External{Property: "C02", Ver: "c02-v2", M: plat.C02Meta(), Quick: 480, Thor: 12000, Bin: "plat.test", TestName: "TestJob", Classify: plat.ClassifyExit},
+		"C02": harness.External{Property: "C02", Ver: "c02-v3", M: plat.C02Meta(), Quick: 480, Thor: 12000, Bin: "plat.test", TestName: "TestJob", Classify: plat.ClassifyExit},
 		"C05": c05.H{Child: harness.External{Property: "C05", ChildKey: "C11", Ver: "c05-child-v2", M: plat.C11Meta(), Bin: "plat.test", TestName: "TestJob", Classify: plat.ClassifyExit}},
 		"C08": harness.Multi{Property: "C08", Parts: []harness.Harness{
 			harness.External{Property: "C08", Ver: "c08-plat-v1", M: plat.C08Meta(), Quick: 400, Thor: 20000, Bin: "plat.test", TestName: "TestJob", Classify: plat.ClassifyExit},
